@@ -385,14 +385,17 @@ func c16GenRaceSpec(g *Rng, rounds int, explicit, unknownVer bool, tag string) c
 				t.Fail = g.Pick(kinds)
 				if t.Fail == "unknown-version" {
 					// rejected by SetSchema itself (before MakeCustomizedResMap): must leave the parsed schema alone too.
-					// Such a build is over within a millisecond, so it arrives late and staggered (pause before each of
-					// its runs): the rejection must land while the other builds are past their initSchema()
+					// Such a build is over within a millisecond; in the repeated round (2) it arrives late and staggered (pause
+					// before each of its runs) so that the rejection lands while the other builds are past their
+					// initSchema(); in the cold rounds it starts with the others (where the known finding shows)
 					t.Fail = ""
 					t.Ver = strp("v9.9.9")
-					for len(rd.DelayMs) < k {
-						rd.DelayMs = append(rd.DelayMs, 0)
+					if i == 2 {
+						for len(rd.DelayMs) < k {
+							rd.DelayMs = append(rd.DelayMs, 0)
+						}
+						rd.DelayMs = append(rd.DelayMs, 150+g.Intn(900))
 					}
-					rd.DelayMs = append(rd.DelayMs, 150+g.Intn(900))
 				}
 			}
 			rd.Trees = append(rd.Trees, t)
